@@ -14,7 +14,16 @@ CAPS = [1.0, 1.0, 2.0, 3.0]
 
 
 def gen_spec(rng, profile="full", max_tasks=6):
-    """profile: 'core' (tasks+workers), 'full' (components, workplaces, facilities too)"""
+    """profile: 'core' (tasks+workers), 'full' (components, workplaces, facilities too).
+    A 'full' case picks a theme so that the rarer interactions are exercised on purpose."""
+    if profile == "full":
+        r = rng.random()
+        if r < 0.25:
+            return gen_facility_theme(rng)
+        if r < 0.40:
+            return gen_chain_theme(rng)
+        if r < 0.50:
+            return gen_contention_theme(rng)
     nT = rng.randint(1, max_tasks)
     share_names = rng.random() < 0.2
     dep_mix = rng.choice(["fs", "fs", "mixed", "mixed", "ss", "ff"])
@@ -150,8 +159,121 @@ def add_product(rng, spec, names, nW):
     spec["workplaces"] = wps
 
 
+def gen_facility_theme(rng):
+    """coherent shop-floor models: components with 1-3 facility tasks each, workplaces whose
+    facilities can do them, workers who can operate the facilities; absences early in the run"""
+    nC = rng.randint(1, 3)
+    nWp = rng.randint(1, 3)
+    tasks, comps = [], []
+    for c in range(nC):
+        k = rng.randint(1, 3)
+        ids = []
+        for j in range(k):
+            i = len(tasks)
+            t = dict(work=rng.choice([1.0, 2.0, 3.0, 4.0]), prog=rng.choice([0.0, 0.0, 0.0, 0.5]), name="T%d" % (i % 4),
+                     need_fac=rng.random() < 0.85, inputs=[], wrule=rng.choice([0, 1, 2, 3]), frule=rng.choice([0, 1, 2, 3]),
+                     wprule=rng.choice([0, 1]))
+            if ids and rng.random() < 0.6:
+                t["inputs"] = [[rng.choice(ids), rng.choice([0, 0, 1, 2])]]
+            elif tasks and rng.random() < 0.2:
+                t["inputs"] = [[rng.randrange(len(tasks)), 0]]
+            if rng.random() < 0.1:
+                t["auto"] = True
+                t["need_fac"] = False
+            tasks.append(t)
+            ids.append(i)
+        comps.append(dict(tasks=ids, size=rng.choice(SIZES)))
+    names = sorted(set(t["name"] for t in tasks))
+    wps, fcount, fnames = [], 0, []
+    for q in range(nWp):
+        facs = []
+        for _ in range(rng.randint(1, 3)):
+            f = dict(name="F%d" % (fcount % 3), skills={n: rng.choice([0.5, 1.0, 1.0, 2.0]) for n in names if rng.random() < 0.85},
+                     cost=rng.choice(COSTS), solo=rng.random() < 0.15)
+            if rng.random() < 0.5:
+                f["absence"] = sorted(rng.sample(range(0, 7), rng.randint(1, 3)))
+            fnames.append(f["name"])
+            facs.append(f)
+            fcount += 1
+        wps.append(dict(facilities=facs, cap=rng.choice([1.0, 2.0, 2.0, 3.0]), targets=[], inputs=[]))
+    if nWp > 1 and rng.random() < 0.5:
+        for q in range(1, nWp):
+            if rng.random() < 0.6:
+                wps[q]["inputs"] = [rng.randrange(q)]
+    for i, t in enumerate(tasks):
+        for q in range(nWp):
+            if rng.random() < 0.7:
+                wps[q]["targets"].append(i)
+        if t.get("need_fac") and rng.random() < 0.1:
+            t["fixF"] = sorted(rng.sample(range(fcount), min(fcount, 2)))
+    teams = []
+    nW = 0
+    for a in range(rng.randint(1, 2)):
+        workers = []
+        for _ in range(rng.randint(1, 3)):
+            w = dict(skills={n: rng.choice([0.5, 1.0, 1.0, 2.0]) for n in names if rng.random() < 0.85},
+                     fac_skills={fn: rng.choice([0.0, 1.0, 1.0, 1.0]) for fn in sorted(set(fnames)) if rng.random() < 0.9},
+                     cost=rng.choice(COSTS), solo=rng.random() < 0.15)
+            if rng.random() < 0.35:
+                w["absence"] = sorted(rng.sample(range(0, 7), rng.randint(1, 3)))
+            if rng.random() < 0.4:
+                w["main_wp"] = rng.randrange(nWp)
+            workers.append(w)
+            nW += 1
+        teams.append(dict(workers=workers, targets=[i for i in range(len(tasks)) if rng.random() < 0.85]))
+    return dict(tasks=tasks, teams=teams, components=comps, workplaces=wps)
+
+
+def gen_chain_theme(rng):
+    """chains and fans of SS/FF/SF links with one dedicated worker per task and small work
+    amounts, so that predecessors and successors run out of work in the same steps"""
+    nT = rng.randint(2, 6)
+    tasks = []
+    for i in range(nT):
+        t = dict(work=rng.choice([0.0, 1.0, 1.0, 2.0, 2.0, 3.0, 5.0]), prog=rng.choice([0.0, 0.0, 0.0, 0.5, 1.0]), name="T%d" % i, inputs=[])
+        if i > 0:
+            for j in rng.sample(range(i), min(i, rng.choice([1, 1, 2]))):
+                t["inputs"].append([j, rng.choice([1, 2, 2, 2, 3, 3, 0])])
+        if rng.random() < 0.15:
+            t["auto"] = True
+            t["auto_rate"] = rng.choice([0.5, 1.0, 2.0])
+        tasks.append(t)
+    if rng.random() < 0.5:
+        perm = list(range(nT))
+        rng.shuffle(perm)
+        inv = {old: new for new, old in enumerate(perm)}
+        tasks = [dict(tasks[old], inputs=[[inv[j], d] for j, d in tasks[old]["inputs"]]) for old in perm]
+    workers = []
+    for i in range(nT):
+        if rng.random() < 0.9:
+            w = dict(skills={tasks[i]["name"]: rng.choice([0.5, 1.0, 1.0, 2.0])}, cost=rng.choice(COSTS), solo=rng.random() < 0.3)
+            if rng.random() < 0.2:
+                w["absence"] = sorted(rng.sample(range(0, 6), rng.randint(1, 2)))
+            workers.append(w)
+    return dict(tasks=tasks, teams=[dict(workers=workers, targets=list(range(nT)))], components=[], workplaces=[])
+
+
+def gen_contention_theme(rng):
+    """many ready tasks, few workers with overlapping skills: priority order decides"""
+    nT = rng.randint(3, 7)
+    tasks = [dict(work=rng.choice([1.0, 2.0, 2.0, 3.0, 4.0]), prog=rng.choice([0.0, 0.0, 0.25]), name="T%d" % (i % 3),
+                  inputs=([[rng.randrange(i), 0]] if i > 0 and rng.random() < 0.3 else []), wrule=rng.choice([0, 1, 2, 3]))
+             for i in range(nT)]
+    names = sorted(set(t["name"] for t in tasks))
+    teams = []
+    for a in range(rng.randint(1, 2)):
+        workers = [dict(skills={n: rng.choice([0.5, 1.0, 2.0]) for n in names if rng.random() < 0.8}, cost=rng.choice(COSTS),
+                        solo=rng.random() < 0.25) for _ in range(rng.randint(1, 3))]
+        teams.append(dict(workers=workers, targets=[i for i in range(nT) if rng.random() < 0.8]))
+    nW = sum(len(tm["workers"]) for tm in teams)
+    for t in tasks:
+        if rng.random() < 0.15:
+            t["fixW"] = sorted(rng.sample(range(nW), min(nW, 2)))
+    return dict(tasks=tasks, teams=teams, components=[], workplaces=[])
+
+
 def gen_params(rng, spec):
-    p = dict(rule=rng.randrange(9), autoFlag=rng.random() < 0.3, maxTime=rng.choice([0, 1, 3, 8, 40, 40, 40, 40]))
+    p = dict(rule=rng.randrange(9), autoFlag=rng.random() < 0.3, maxTime=rng.choice([0, 1, 3, 8, 40, 40, 40, 40, 40, 40]))
     r = rng.random()
     if r < 0.5:
         p["absence"] = []
